@@ -596,6 +596,9 @@ func (fr *frame) builtin(b *ssa.Builtin, com *ssa.CallCommon, args []Val, st *St
 		bb := fr.asValue(args[1], st)
 		c := ft.fresh("app", s)
 		ft.fact("(= " + c + " (" + si.Cat + " " + a + " " + bb + "))")
+		// the prefix is kept - a consequence of the cat axioms, stated once more with the trigger on the OLD sequence, so
+		// that a witness known for a[j] (e.g. the Skolem index of an existential invariant) carries over to the result
+		ft.fact(fmt.Sprintf("(forall ((j Int)) (! (=> (and (<= 0 j) (< j (%s %s))) (= (%s %s j) (%s %s j))) :pattern ((%s %s j))))", si.Len, a, si.At, c, si.At, a, si.At, a))
 		// append returns nil only if both are empty and the first is nil
 		ft.fact("(=> (> (" + si.Len + " " + c + ") 0) (not (" + si.IsNil + " " + c + ")))")
 		ft.fact("(=> (not (" + si.IsNil + " " + a + ")) (not (" + si.IsNil + " " + c + ")))")
